@@ -284,6 +284,13 @@ class Check:
                     want_d = [d for n, d in dref.get("obs", {}).get("dets", []) if n == dname]
                     if want_d and want_d[0] != ddig:
                         mms.append(compare.mm("gdet:" + dname, want_d[0], ddig))
+                for dname, ddig in ev.get("obs", {}).get("dets_ord", []):
+                    dref = self.refs.refs.get(("groupx", refs.groupx_id(op), dname))
+                    if dref is None or dref.get("outcome") != "ok":
+                        continue
+                    want_d = [d for n, d in dref.get("obs", {}).get("dets_ord", []) if n == dname]
+                    if want_d and want_d[0] != ddig:
+                        mms.append(compare.mm("gdetord:" + dname, want_d[0], ddig))
                 for fkey, path in sorted(op["paths"].items()):
                     bref = self.refs.refs.get(("build", op["cmap"][fkey.split("/")[0]], tuple(path)))
                     got = ev.get("obs", {}).get("functions", {}).get(fkey)
@@ -345,6 +352,8 @@ class Check:
             f = op.get("fault")
             if f is not None:
                 k = f["kind"]
+                if k == "io" and f.get("exc") == "TORN":
+                    k = "io_torn_write"
                 st["faults_configured"][k] = st["faults_configured"].get(k, 0) + 1
                 if ev.get("fault_fired"):
                     st["faults_fired"][k] = st["faults_fired"].get(k, 0) + 1
